@@ -37,7 +37,7 @@ func c09Params(tier string) []*kvops.Params {
 	if !quick {
 		depth = 6
 		alpha = append(alpha, ev("put", 0, 0, "NX+PX"), ev("put", 0, 0, "XX+EX"), ev("decr", 0, 1, ""), ev("del", 0, 0, ""))
-		cfs = append(cfs, cf{3, 2, "EN", false, 0}, cf{3, 2, "CC", false, 0}, cf{2, 1, "RN", false, 0}, cf{1, 1, "EO", true, 0}, cf{2, 1, "EO", false, 200})
+		cfs = append(cfs, cf{3, 2, "EN", false, 0}, cf{3, 2, "CC", false, 0}, cf{2, 1, "RN", false, 0}, cf{2, 1, "RNx", false, 0}, cf{1, 1, "EO", true, 0}, cf{2, 1, "EO", false, 200})
 	}
 	var out []*kvops.Params
 	for _, c := range cfs {
